@@ -195,6 +195,9 @@ fn supervise_once(ctx: &Ctx, set: &dyn CaseSet, iso: &Isolation, from: usize, to
                 let r = libc::rlimit { rlim_cur: m, rlim_max: m };
                 libc::setrlimit(libc::RLIMIT_AS, &r);
             }
+            // a worker must not outlive its supervisor (a killed check would otherwise leave
+            // runaway children behind)
+            libc::prctl(libc::PR_SET_PDEATHSIG, libc::SIGKILL);
             // no core files
             let r = libc::rlimit { rlim_cur: 0, rlim_max: 0 };
             libc::setrlimit(libc::RLIMIT_CORE, &r);
